@@ -626,10 +626,10 @@ var c05Consumers = map[string]struct {
 	Allowed []string
 	Why     string
 }{
-	"vm/evm.opSuicide":            {[]string{"call:types.StateDB.AddTokenBalance"}, "credits keyed by token address (disjoint per element); the balance records are produced after sort.Sort"},
-	"vm/evm.gasSuicide":           {[]string{"call:evm.gasFee", "call:math.SafeAdd", "carried:uint64", "carried:bool", "early-exit"}, "only the single native-coin entry contributes; sum and overflow are order-independent"},
-	"vm/wasm.(*TCSelfDestruct).Gas": {[]string{"call:wasm.gasFee", "call:math.SafeAdd", "call:vm.Engine.AddFee", "carried:uint64", "carried:bool", "early-exit"}, "only the single native-coin entry contributes"},
-	"state.(*StateDB).Suicide":    {[]string{"escape:state.suicideChange"}, "kept in the journal; revert writes each element under its own token key"},
+	"vm/evm.opSuicide":                  {[]string{"call:types.StateDB.AddTokenBalance"}, "credits keyed by token address (disjoint per element); the balance records are produced after sort.Sort"},
+	"vm/evm.gasSuicide":                 {[]string{"call:evm.gasFee", "call:math.SafeAdd", "carried:uint64", "carried:bool", "early-exit"}, "only the single native-coin entry contributes; sum and overflow are order-independent"},
+	"vm/wasm.(*TCSelfDestruct).Gas":     {[]string{"call:wasm.gasFee", "call:math.SafeAdd", "call:vm.Engine.AddFee", "carried:uint64", "carried:bool", "early-exit"}, "only the single native-coin entry contributes"},
+	"state.(*StateDB).Suicide":          {[]string{"escape:state.suicideChange"}, "kept in the journal; revert writes each element under its own token key"},
 	"state.(*StateDB).GetTokenBalances": {[]string{"escape:return"}, "wrapper: its callers are consumers themselves"},
 }
 
@@ -1136,7 +1136,7 @@ func c05WrappedTrie(c C) {
 		c.MustPass("state."+name, "push-on-every-path", ir.Entry(fn), ir.IsReturn, push, nil, "every path to a return pushes the update onto the ordering heap")
 		for _, call := range ir.Calls(fn, "heap.Push") {
 			a0, a1 := Arg(call, 0), Arg(call, 1)
-			c.R.Check("K2", "state."+name+"/push-operands", p.InstrPos(call.(ssa.Instruction)), a0 == "kvTrie.serial" && strings.HasPrefix(a1, "append(state.keyHash(key)") ,
+			c.R.Check("K2", "state."+name+"/push-operands", p.InstrPos(call.(ssa.Instruction)), a0 == "kvTrie.serial" && strings.HasPrefix(a1, "append(state.keyHash(key)"),
 				"pushes hash(key)||value onto kvTrie.serial: heap.Push("+a0+", "+short(a1, 80)+")")
 		}
 	}
